@@ -8,6 +8,7 @@ import (
 	"regexp"
 	"strconv"
 	"strings"
+	"unicode/utf16"
 )
 
 var stringToNumberParseInteger = regexp.MustCompile(`^(?:0[xX])`)
@@ -115,6 +116,8 @@ func (v Value) float64() float64 {
 		return value
 	case string:
 		return parseNumber(value)
+	case []uint16:
+		return parseNumber(string(utf16.Decode(value)))
 	case *object:
 		return value.DefaultValue(defaultValueHintNumber).float64()
 	}
